@@ -173,6 +173,11 @@ func c03Case(c *core.Ctx, idx int) {
 			staleTails(want.Elem(), rand.New(rand.NewPCG(seed, 3)), 0)
 			rec.Count("recycled_targets", 1)
 		}
+		if j%3 == 1 {
+			// rejected messages arrive between good ones: the message damaged at every byte position in
+			// turn, decoded into the new version of the type on the same instance
+			sweepDamage(c, tc.p, s2, data)
+		}
 		rec.Eval(1)
 		h, _ := model.ShapeHash(v)
 		rec.NonTrivial(h ^ core.Hash64(tc.typ.String(), s2.String(), tc.name))
@@ -281,7 +286,7 @@ func init() {
 	core.Register(&core.Prop{
 		ID:        "C03",
 		Technique: "schema-evolution monitor: data of generated struct types decoded by the real Unmarshal into randomly edited types with non-zero priors, compared with a reference decoder and metamorphically with the decode into the original type",
-		Rule: "every fourth message is also decoded with up to six fields appended whose indexes are those of S' plus a multiple of 2^29..2^56 (five- to nine-byte tags): unknown, to be skipped. S from the type generator; every second prior is a recycled target (slices cut short where they are), schema queries come between decodes; S' by a random edit script at every nesting depth (field, pointer target, slice element, map value): remove (p=1/4), add under a fresh index with an arbitrary type, rename (Go name and/or json tag), reorder; " +
+		Rule: "before every third decode the message is decoded into S' damaged at every byte position in turn (0xff, +1, -1), whatever that returns. every fourth message is also decoded with up to six fields appended whose indexes are those of S' plus a multiple of 2^29..2^56 (five- to nine-byte tags): unknown, to be skipped. S from the type generator; every second prior is a recycled target (slices cut short where they are), schema queries come between decodes; S' by a random edit script at every nesting depth (field, pointer target, slice element, map value): remove (p=1/4), add under a fresh index with an arbitrary type, rename (Go name and/or json tag), reorder; " +
 			"values of S boundary-biased, priors of S' zero in one third of the cases and random otherwise. Counters report which wire types occurred as unknown fields. distinct = (S, S', configuration, value-shape) hashes",
 		Assume: []string{"model.Decode implements the merge rules of the statement (validated against the real decoder by C10)"},
 		Plan: func(tier string) []core.Lane {
